@@ -64,27 +64,28 @@ Print Assumptions C10_fraction_lowest_terms.
 
 (* LOSSLESS TRIPLET NOTATION, unbounded, ALL SIX LETTER STYLES: for every operator whose rotation rows
    (columns, for a reciprocal-space operator) are non-zero - in particular every invertible one - with
-   arbitrary integer entries in 1/24 units, printing in x/X/a/A (resp. h/H) letters and parsing back
+   integer entries in 1/24 units of at most 10^6 in absolute value (the repaired parser refuses larger numbers so
+   that its int arithmetic cannot overflow), printing in x/X/a/A (resp. h/H) letters and parsing back
    yields the identical matrix and translation and the notation the letters imply. Proved once in a
    Section over an abstract letter set (TripletRT.v) by induction over the printed terms (strtol inverts
    decimal printing, fractions in lowest terms divide exactly) and instantiated for the six styles. *)
-Theorem C10_row_roundtrip : forall x y z w nt, nt_ok 120 nt -> (x, y, z) <> (0, 0, 0) ->
+Theorem C10_row_roundtrip : forall x y z w nt, nt_ok 120 nt -> (x, y, z) <> (0, 0, 0) -> row_bounded x y z w ->
   parse_triplet_part (make_triplet_part (x, y, z) w 120) nt = Ok ((x, y, z, w), 120).
 Proof. exact (row_roundtrip_nt 120 Lx 120 Ix1 Fx Cx Ax). Qed.
 Print Assumptions C10_row_roundtrip.
 
-Theorem C10_triplet_roundtrip_real : forall a st ntv, real_style st ntv -> nota a <> 104 -> rows_nonzero a ->
+Theorem C10_triplet_roundtrip_real : forall a st ntv, real_style st ntv -> nota a <> 104 -> rows_nonzero a -> op_bounded a ->
   exists s, triplet a st = Some s /\ parse_triplet s 32 = Ok (mkOp (rot a) (tran a) ntv).
 Proof. exact triplet_roundtrip_real. Qed.
 Print Assumptions C10_triplet_roundtrip_real.
 
-Theorem C10_triplet_roundtrip_xyz : forall a, (nota a = 32 \/ nota a = 120) -> rows_nonzero a ->
+Theorem C10_triplet_roundtrip_xyz : forall a, (nota a = 32 \/ nota a = 120) -> rows_nonzero a -> op_bounded a ->
   exists s, triplet a 32 = Some s /\ parse_triplet s 32 = Ok (mkOp (rot a) (tran a) 120).
 Proof. exact triplet_roundtrip_xyz. Qed.
 Print Assumptions C10_triplet_roundtrip_xyz.
 
 Theorem C10_triplet_roundtrip_hkl : forall a st, (st = 104 \/ st = 72) -> nota a = 104 -> tran a = (0,0,0) ->
-  cols_nonzero a ->
+  cols_nonzero a -> op_bounded a ->
   exists s, triplet a st = Some s /\ parse_triplet s 32 = Ok (mkOp (rot a) (0,0,0) 104).
 Proof. exact triplet_roundtrip_hkl. Qed.
 Print Assumptions C10_triplet_roundtrip_hkl.
@@ -92,8 +93,14 @@ Print Assumptions C10_triplet_roundtrip_hkl.
 (* the hypotheses are satisfiable: a non-trivial operator in each family *)
 Example C10_roundtrip_nonvacuous :
   real_style 97 96 /\ rows_nonzero (mkOp ((0,-24,0),(24,-24,0),(0,0,24)) (0,0,8) 32) /\
-  cols_nonzero (mkOp ((12,12,0),(-12,12,0),(0,0,24)) (0,0,0) 104).
-Proof. unfold real_style, rows_nonzero, cols_nonzero; cbn; repeat split; try discriminate. right; right; left; split; reflexivity. Qed.
+  cols_nonzero (mkOp ((12,12,0),(-12,12,0),(0,0,24)) (0,0,0) 104) /\
+  op_bounded (mkOp ((0,-24,0),(24,-24,0),(0,0,24)) (0,0,8) 32) /\ op_bounded (mkOp ((12,12,0),(-12,12,0),(0,0,24)) (0,0,0) 104).
+Proof. exact roundtrip_nonvacuous. Qed.
+
+(* the bound is needed: the pinned snapshot computed 24 * n in int for any n; the repaired parser refuses n > 10^6 *)
+Theorem C10_big_number_refused : parse_triplet_part [50;48;48;48;48;48;48;48;120] 32 = Fail.
+Proof. exact big_number_refused. Qed.
+Print Assumptions C10_big_number_refused.
 
 (* print -> parse round trip for every operation of every tabulated group (finite: 564 rows),
    and exact inverses of all 51 basis operators (including the non-unimodular ones).
